@@ -618,9 +618,9 @@ impl<'a> Encoder<'a> {
                     let m = &mut *self.model;
                     self.rc.bit(&mut m.is_match[st][pos_state], 1);
                     self.rc.bit(&mut m.is_rep[st], 0);
-                    Self::encode_len(&mut self.rc, &mut m.len, pos_state, 2);
+                    Self::encode_len(&mut self.rc, &mut m.len, pos_state, EOS_LEN.with(|l| l.get()));
                 }
-                self.encode_distance(EOS_REP0, 2);
+                self.encode_distance(EOS_REP0, EOS_LEN.with(|l| l.get()));
                 let m = &mut *self.model;
                 m.reps = [EOS_REP0, m.reps[0], m.reps[1], m.reps[2]];
                 m.state = state_after_match(st);
@@ -658,6 +658,33 @@ pub struct RcStats {
 }
 
 /// Encode a self-contained program (fresh model, fresh history).
+thread_local! {
+    /// length field of the end marker the encoder writes (any length 2..=273 is a marker: only the
+    /// distance 2^32 - 1 makes it one); 2 unless a generator sets it for the stream it is building
+    pub static EOS_LEN: std::cell::Cell<u32> = const { std::cell::Cell::new(2) };
+}
+
+/// sets the end marker's length field for every stream encoded on this thread until the guard
+/// is dropped
+pub struct EosLenGuard;
+impl Drop for EosLenGuard {
+    fn drop(&mut self) {
+        EOS_LEN.with(|l| l.set(2));
+    }
+}
+pub fn with_eos_len(len: u32) -> EosLenGuard {
+    EOS_LEN.with(|l| l.set(len.clamp(2, 273)));
+    EosLenGuard
+}
+
+/// `encode_program` with the end marker's length field set to `eos_len`
+pub fn encode_program_eos_len(prog: &[Sym], props: Props, eos_len: u32) -> Result<(Vec<u8>, Vec<SymRecord>, Vec<u8>), EncodeError> {
+    EOS_LEN.with(|l| l.set(eos_len));
+    let r = encode_program(prog, props);
+    EOS_LEN.with(|l| l.set(2));
+    r
+}
+
 pub fn encode_program(
     prog: &[Sym],
     props: Props,
